@@ -138,23 +138,34 @@ def _regen_parsers(scratch):
         raise AnalysisBroken('parser regeneration failed: ' + r.stderr[-800:])
 
 
-def _yrx(scratch, src, flags, out):
+CONFIGS = {
+    None: ['-UNDEBUG'],
+    # release builds: assert() compiles to nothing, so the paths it cuts off exist
+    'ndebug': ['-DNDEBUG'],
+    # --enable-profiling: per-rule / per-string cost accounting in the scan path
+    'profiling': ['-UNDEBUG', '-DYR_PROFILING_ENABLED'],
+}
+
+
+def _yrx(scratch, src, flags, out, config=None):
     cmd = [YRX, '-root', os.path.realpath(scratch), '-o', out, src, '--'] + flags + [
-        '-resource-dir', RESOURCE_DIR, '-w', '-UNDEBUG']
+        '-resource-dir', RESOURCE_DIR, '-w'] + CONFIGS[config]
     r = _run(cmd, scratch)
     ok = r.returncode == 0 and os.path.exists(out)
     return src, ok, r.stderr[-2000:]
 
 
-def prepare(verbose=False):
-    """Return (facts_dir, info).  facts_dir holds one <unit>.json per TU."""
+def prepare(verbose=False, config=None):
+    """Return (facts_dir, info).  facts_dir holds one <unit>.json per TU.
+    config: None (the configured build) or a key of CONFIGS (same units, extra
+    preprocessor configuration; thorough tier)."""
     t0 = time.time()
     if not os.path.exists(YRX):
         b = _run(['sh', os.path.join(VERIF, 'tools', 'build.sh')], VERIF)
         if b.returncode != 0 or not os.path.exists(YRX):
             raise AnalysisBroken('cannot build yrx: ' + b.stderr[-800:])
     th = tree_hash(REPO)
-    fdir = os.path.join(CACHE, th)
+    fdir = os.path.join(CACHE, th + ('-' + config if config else ''))
     done = os.path.join(fdir, 'DONE.json')
     if os.path.exists(done):
         info = json.load(open(done))
@@ -164,7 +175,8 @@ def prepare(verbose=False):
     os.makedirs(CACHE, exist_ok=True)
     # drop old caches (keep disk small)
     for d in os.listdir(CACHE):
-        shutil.rmtree(os.path.join(CACHE, d), ignore_errors=True)
+        if not d.startswith(th):
+            shutil.rmtree(os.path.join(CACHE, d), ignore_errors=True)
     tmp = tempfile.mkdtemp(prefix='yrsa-')
     try:
         scratch = os.path.join(tmp, 'repo')
@@ -203,7 +215,7 @@ def prepare(verbose=False):
         with ThreadPoolExecutor(max_workers=16) as ex:
             for src, flags in sorted(units.items()):
                 out = os.path.join(out_tmp, src.replace('/', '__') + '.json')
-                jobs.append(ex.submit(_yrx, scratch, src, flags, out))
+                jobs.append(ex.submit(_yrx, scratch, src, flags, out, config))
         failed = []
         for j in jobs:
             src, ok, err = j.result()
@@ -222,6 +234,7 @@ def prepare(verbose=False):
                 shutil.copy2(p, os.path.join(out_tmp, f.replace('/', '__')))
         info = {
             'tree_hash': th,
+            'config': config or 'as configured',
             'units': sorted(units),
             'parser_drift': drift,
             'not_analysed': ['libyara/modules/magic/magic.c',
